@@ -1209,13 +1209,28 @@ impl<'de> de::Deserializer<'de> for &mut Deserializer<'de> {
                 let expect = self.expect_type.clone();
                 let wire = self.wire_type.clone();
                 check!(self.expect_type.is_tuple(), "seq_tuple");
-                if !self.wire_type.is_tuple() {
+                // Components are paired by position, so the wire record must start with the ids
+                // 0, 1, … of the expected tuple. Further wire fields (of any id: a subtype may add
+                // fields) are skipped once the visitor is done.
+                let arity = match expect.as_ref() {
+                    TypeInner::Record(fs) => fs.len(),
+                    _ => 0,
+                };
+                let positional = match wire.as_ref() {
+                    TypeInner::Record(fs) => fs
+                        .iter()
+                        .take(arity)
+                        .enumerate()
+                        .all(|(i, f)| f.id.get_id() == i as u32),
+                    _ => false,
+                };
+                if !positional {
                     return Err(Error::subtype(format!(
                         "{} is not a tuple type",
                         self.wire_type
                     )));
                 }
-                let value = visitor.visit_seq(Compound::new(
+                let mut compound = Compound::new(
                     self,
                     Style::Struct {
                         expect,
@@ -1223,7 +1238,11 @@ impl<'de> de::Deserializer<'de> for &mut Deserializer<'de> {
                         expect_idx: 0,
                         wire_idx: 0,
                     },
-                ))?;
+                );
+                let value = visitor.visit_seq(&mut compound)?;
+                // A tuple visitor stops after its own arity. The wire tuple may be longer
+                // (a subtype): the remaining components still have to be consumed.
+                compound.skip_remaining_wire_fields()?;
                 Ok(value)
             }
             _ => check!(false),
@@ -1569,6 +1588,27 @@ impl Style {
 impl<'a, 'de> Compound<'a, 'de> {
     fn new(de: &'a mut Deserializer<'de>, style: Style) -> Self {
         Compound { de, style }
+    }
+    fn skip_remaining_wire_fields(&mut self) -> Result<()> {
+        use de::Deserializer;
+        if let Style::Struct {
+            ref wire,
+            ref mut wire_idx,
+            ..
+        } = self.style
+        {
+            let wire_fields = match wire.as_ref() {
+                TypeInner::Record(fields) => fields,
+                _ => unreachable!(),
+            };
+            while let Some(f) = wire_fields.get(*wire_idx) {
+                *wire_idx += 1;
+                self.de.add_cost(3)?;
+                self.de.wire_type = f.ty.clone();
+                self.de.deserialize_ignored_any(de::IgnoredAny)?;
+            }
+        }
+        Ok(())
     }
 }
 
